@@ -83,7 +83,12 @@ def gen_step(rng, i, ops=OPS, big=False, maxdata=None, fails=False, dirs=False, 
 def gen_scenario(rng, nsteps=None, ops=OPS, big=False, fails=False, long_cmds=False, dirs=False, hist=False):
     n = nsteps if nsteps is not None else rng.randint(1, 8)
     dims = gen.common_dims(rng)
-    return {"dims": dims, "steps": [gen_step(rng, i, ops, big, maxdata=dims["maxdata"] if long_cmds else None, fails=fails, dirs=dirs, hist=hist) for i in range(n)]}
+    steps = [gen_step(rng, i, ops, big, maxdata=dims["maxdata"] if long_cmds else None, fails=fails, dirs=dirs, hist=hist) for i in range(n)]
+    for st in steps:
+        # device paths are text: a fifth of them is not ASCII (decided from the step's own seed: no extra draw)
+        if st.get("path") and st["op"] in ("list", "stat", "pull", "push") and not st.get("dies") and int(st["seed"][4:6], 16) % 5 == 0:
+            st["path"] += "-\u00e9\u65e5\u672c " + "\u00fc" * (int(st["seed"][6:8], 16) % 3)
+    return {"dims": dims, "steps": steps}
 
 
 def blob(seed, size):
@@ -92,6 +97,21 @@ def blob(seed, size):
     if size <= 509:
         return base
     return (base * (size // 509 + 1))[:size]
+
+
+def filled(content, fill):
+    """file contents with long runs of NUL bytes (sparse files, zeroed images): 'zeros' = nothing else, 'zerotail' = the last two thirds, 'holes' = every other 4 KiB block"""
+    if not fill or not content:
+        return content
+    n = len(content)
+    if fill == "zeros":
+        return b"\0" * n
+    if fill == "zerotail":
+        return content[:n // 3] + b"\0" * (n - n // 3)
+    out = bytearray(content)
+    for off in range(0, n, 8192):
+        out[off:off + 4096] = b"\0" * len(out[off:off + 4096])
+    return bytes(out)
 
 
 # ------------------------------------------------------------------------------------------ execution
@@ -316,7 +336,7 @@ class Runner(object):
     # ---- pull
     def prep_pull(self, i, step):
         rng = gen.rng_for("step", step["seed"])
-        content = blob(step["seed"], step["size"])
+        content = filled(blob(step["seed"], step["size"]), step.get("fill"))
         path = step["path"].encode()
         plan = self.sim.sync_plan
         plan.files[path] = content
@@ -380,7 +400,7 @@ class Runner(object):
 
     # ---- push
     def prep_push(self, i, step):
-        content = blob(step["seed"], step["size"])
+        content = filled(blob(step["seed"], step["size"]), step.get("fill"))
         plan = self.sim.sync_plan
         cb_calls = []
         cb = make_callback(self.sess.impl, step.get("cb"), cb_calls)
